@@ -89,3 +89,7 @@ def run(ctx, rep):
     rs.inst(f"sync kinds tried: {order}")
     if order is not None and sorted(order) != sorted(KINDS):
         fail(rs, ctx, pf, pf.node, f"sync section tries kinds {order}; expected the tempo, time-signature and anchor recognisers")
+    rch = rep.rule("chain", "file -> lines (read().splitlines(), utf-8-sig) -> framing -> section route -> dispatcher -> builders: every link "
+                            "hands the lines on unchanged", floor=10)
+    from .chain import check_chain
+    check_chain(ctx, rch, "sync", strict=True)
